@@ -42,7 +42,22 @@ FIELDS = {
     "Location": {"uri": ["str"], "range": [("obj", "Range")]},
 }
 
-UNRELATED = ["none", "bool", "int", "float", "str", "other"]
+UNRELATED = [
+    "none",
+    "bool",
+    "int",
+    "float",
+    "str",
+    "other",
+    "list",
+    "dict",
+    "tuple",  # a tuple of a length not listed below (opaque)
+    ("tuple_of", []),
+    ("tuple_of", ["int"]),
+    ("tuple_of", ["int", "int"]),  # the (line, character) look-alike
+    ("tuple_of", ["int", "str"]),
+    ("tuple_of", ["int", "int", "int"]),
+]
 
 
 def build_world(live) -> Tuple[World, Interp, Dict[str, Any]]:
